@@ -120,6 +120,7 @@ pub fn run_csr_random(out_path: &str, n: usize) {
 	let attr_pool = [
 		json!({"oid": "1.2.840.113549.1.9.7", "values": "31040c027077"}),
 		json!({"oid": "1.2.840.113549.1.9.7", "values": "31050c03707732"}),
+		json!({"oid": "1.2.840.113549.1.9.2", "values": format!("318201300c82012c{}", "79".repeat(300))}),
 		json!({"oid": "1.2.840.113549.1.9.2", "values": "311b0c19612d6c6f6e672d756e737472756374757265642d6e616d652e"}),
 		json!({"oid": "1.3.6.1.4.1.55555.9", "values": "3103020105"}),
 		json!({"oid": "2.999.3", "values": "3100"}),
